@@ -29,7 +29,7 @@ EXPLANATION = (
 )
 ASSUMPTIONS = ["CPython ast parses /repo's source as the interpreter would",
                "the table of unordered-iteration sites with their commutativity argument in sa/rules/c08.py"]
-MIN_INSTANCES = {"R-08a": 6, "R-08b": 3, "R-08c": 5, "R-08d": 3, "R-08e": 5, "R-08f": 2}
+MIN_INSTANCES = {"R-08g": 4, "R-08a": 6, "R-08b": 3, "R-08c": 5, "R-08d": 3, "R-08e": 5, "R-08f": 2}
 
 
 def r08a(model, ctx):
@@ -138,6 +138,30 @@ def _run_once_ok(paths, var):
         if not (cleared and guarded):
             return False, n
     return n > 0, n
+
+
+def r08g(model, ctx):
+    """the wakers that compiled processes register on signals and memories are persistent: the waker list keeps exactly the
+    wakers that return True, so every path of these closures must return True (a waker that falls off the end is dropped
+    after its first firing and the process never runs again: a comb read port stops following the memory)"""
+    R = "R-08g"
+    n = 0
+    for name in ("comb_waker", "edge_waker", "memory_waker"):
+        f = model.func(f"{PYRTL}::{name}")
+        inner = [x for x in f.body if isinstance(x, ast.FunctionDef)]
+        need(len(inner) == 1, f"{name}: inner waker closure not found")
+        ps = [p for p in run_paths(inner[0].body) if p.how != "raise"]
+        ok = bool(ps) and all(p.how == "return" and isinstance(p.ret, ast.Constant) and p.ret.value is True for p in ps)
+        n += 1
+        ctx.check(ok, R, f"{name}:persistent", "every path of the waker returns True",
+                  f"{name}: the registered waker must return True on every path (wakers that do not are removed after firing once)",
+                  f"{PYRTL}:{inner[0].lineno}")
+    # the protocol they rely on
+    fr = model.func(f"{PYSIM}::_run_wakers")
+    t = unparse(fr)
+    ok = "wakers[:] = [waker for waker in wakers if waker(*args)]" in t or "if waker(*args)" in t
+    ctx.check(ok, R, "_run_wakers", "keeps the wakers that return a true value", "_run_wakers must keep exactly the wakers that return true",
+              f"{PYSIM}:{fr.lineno}")
 
 
 def r08b(model, ctx):
@@ -458,7 +482,7 @@ def _only(rule_fn, keep):
 
 _merge = lambda c: c.startswith("_PySignalState") or c.startswith("_PyMemoryState") or c.startswith("_eval_assign_inner:Signal")
 
-RULES = [("R-08a", r08a), ("R-08b", r08b), ("R-08c", r08c), ("R-08d", r08d), ("R-08e", r08e),
+RULES = [("R-08g", r08g), ("R-08a", r08a), ("R-08b", r08b), ("R-08c", r08c), ("R-08d", r08d), ("R-08e", r08e),
          ("R-02g", _only(c02.r02g, _merge)), ("R-02f", _only(c02.r02f, lambda c: c.startswith("_FragmentCompiler"))),
          ("R-05a", c05.r05a),
          # two processes of one domain (clocked, asynchronous reset) may run in the same delta cycle: they must write the
